@@ -142,7 +142,10 @@ def parse_embedded_scalar(scalar, version=LATEST_VER):
 
     # Is it a xstr?
     if scalar.startswith('x:'):
-        return XStr(*scalar[2:].split(':'))
+        # x:<type>:<payload>, the payload may itself contain colons
+        parts = scalar[2:].split(':', 1)
+        if len(parts) == 2:
+            return XStr(*parts)
 
     # Is it a reference?
     match = REF_RE.match(scalar)
